@@ -51,7 +51,7 @@ func main() {
 	worker.Run(r, worker.Opts{Phase: "xcopy", Total: r.N(900, 12000), Batch: 100, Timeout: 20 * time.Minute})
 	if bin := os.Getenv("VERIF_RACE_BIN"); bin != "" {
 		raceDir, _ := os.MkdirTemp("", "verif-c03-race-")
-		defer os.RemoveAll(raceDir)
+		r.Cleanup(func() { os.RemoveAll(raceDir) })
 		worker.Run(r, worker.Opts{Phase: "race", Total: r.N(120, 1200), Batch: 40, Bin: bin, Timeout: 30 * time.Minute,
 			Env: []string{"GORACE=halt_on_error=0 log_path=" + filepath.Join(raceDir, "race")}})
 		mon.ReportRaces(r, raceDir)
